@@ -206,7 +206,7 @@ func (f *gov) genApprovals(s *sc) {
 	r := s.r
 	r.Rule("histories = (approve method, N = 1..13 validators, seeded approval sequence with repeats/outsiders/missing witnesses and pool changes in between, second and third approval round after the action was applied); distinct non-trivial = (method, N) at which an action was applied")
 	kinds := []string{"appr", "black", "white", "scappr", "scapprupd", "scapprquit", "rlappr", "rlapprrm", "svappr", "svapprrm"}
-	nHist := r.Pick(260, 26000)
+	nHist := r.Pick(260, 5200)
 	for h := 0; h < nHist; h++ {
 		kind := kinds[h%len(kinds)]
 		n := 1 + (h/len(kinds))%13
@@ -337,7 +337,7 @@ func (f *gov) poolChange(s *sc) {
 func (f *gov) genRegistry(s *sc) {
 	r := s.r
 	r.Rule("histories = 40 seeded ops over 3 chain ids and 3 owners: register/update/quit requests by owners and non-owners, partial and full approval rounds, including quit -> re-register by another owner -> late approval rounds of stale requests; distinct non-trivial = (approve method, N) at which an action was applied")
-	nHist := r.Pick(220, 22000)
+	nHist := r.Pick(220, 4400)
 	for h := 0; h < nHist; h++ {
 		n := 4 + h%4
 		s.start(fmt.Sprintf("registry-N%d-%d", n, h), n, 0, 100000)
@@ -425,7 +425,7 @@ func (f *gov) genRegistry(s *sc) {
 func (f *gov) genPool(s *sc) {
 	r := s.r
 	r.Rule("histories = 45 seeded node-manager ops from pools of 4..9 validators: register (lower, upper and mixed-case hex of the same key, blacklisted keys, keys already in the pool) / unregister / approval rounds / quit / black (batches, duplicates, quitting nodes) / white / commitDpos (operator, outsider, after MaxBlockChangeView) / updateConfig across block heights; distinct non-trivial = epoch changes by (op, pool size) and applied actions by (method, N)")
-	nHist := r.Pick(200, 20000)
+	nHist := r.Pick(200, 4000)
 	for h := 0; h < nHist; h++ {
 		n := 4 + h%6
 		mbcv := []int{100000, 3, 20}[h%3]
@@ -597,7 +597,7 @@ func (f *gov) genPool(s *sc) {
 func (f *gov) genVotes(s *sc) {
 	r := s.r
 	r.Rule("histories = N = 1..13 validators, 3 vote ids and 2 signature subjects, 30 seeded votes/signatures by validators, repeat voters, outsiders and missing witnesses with validator-set changes (quit, candidate approval, commitDpos) in between; distinct non-trivial = releases by (kind, N)")
-	nHist := r.Pick(260, 26000)
+	nHist := r.Pick(260, 5200)
 	for h := 0; h < nHist; h++ {
 		n := 1 + h%13
 		s.start(fmt.Sprintf("votes-N%d-%d", n, h), n, 2, 100000)
